@@ -765,11 +765,15 @@ impl<'a, 'b> Sem<'a, 'b> {
                     }
                     used_plain.push(name.to_string());
                     let v = match self.c.pick(3) {
-                        0 => DirValue::Expr(match self.expr(depth + 1) {
+                        0 => match self.expr(depth + 1) {
                             // `{[..]}` would be read as the array form
-                            Ex::Src { cat: Cat::ArrLit, .. } => Ex::src("y", Cat::IdentBound),
-                            e => e,
-                        }),
+                            Ex::Src { cat: Cat::ArrLit, .. } => DirValue::Expr(Ex::src("y", Cat::IdentBound)),
+                            Ex::Jsx(node) if self.c.bool() => {
+                                self.label("braceless-jsx-directive-value");
+                                DirValue::JsxBare(node)
+                            }
+                            e => DirValue::Expr(e),
+                        },
                         1 => {
                             self.label("directive-string-value");
                             DirValue::Str(self.string_value())
@@ -891,17 +895,37 @@ impl<'a, 'b> Sem<'a, 'b> {
         } else {
             self.expr(self.cfg.max_depth)
         };
-        let value = match self.c.weighted(&[5, 2, 2, 2, 2, 1, if self.cfg.logging { 0 } else { 1 }]) {
+        let value = match self.c.weighted(&[5, 2, 2, 2, 2, 1, if self.cfg.logging { 0 } else { 1 }, if self.cfg.logging { 0 } else { 1 }]) {
+            7 => {
+                // an element as the value, with or without braces
+                let node = Node::El(Element {
+                    tag: Tag::Html(self.c.choose(&["b", "i"]).to_string()),
+                    attrs: vec![Attr::Str { name: "id".into(), value: "dv".into() }],
+                    children: if self.c.bool() { vec![Child::Expr(Ex::src("x", Cat::IdentBound))] } else { vec![] },
+                    self_closing: false,
+                });
+                if self.c.bool() {
+                    self.label("braceless-jsx-directive-value");
+                    DirValue::JsxBare(Box::new(node))
+                } else {
+                    self.label("jsx-directive-value");
+                    DirValue::Expr(Ex::Jsx(Box::new(node)))
+                }
+            }
             6 => {
                 // `v-foo="text"`: the string is the directive's value
                 self.label("directive-string-value");
                 DirValue::Str(self.string_value())
             }
-            0 => DirValue::Expr(match ve {
+            0 => match ve {
                 // `{[..]}` would be read as the array form
-                Ex::Src { cat: Cat::ArrLit, .. } => Ex::src("x", Cat::IdentBound),
-                e => e,
-            }),
+                Ex::Src { cat: Cat::ArrLit, .. } => DirValue::Expr(Ex::src("x", Cat::IdentBound)),
+                Ex::Jsx(node) if self.c.bool() => {
+                    self.label("braceless-jsx-directive-value");
+                    DirValue::JsxBare(node)
+                }
+                e => DirValue::Expr(e),
+            },
             1 => DirValue::Array {
                 value: ve,
                 arg: None,
@@ -1026,7 +1050,8 @@ impl<'a, 'b> Sem<'a, 'b> {
                 self.label("vmodel-ns-arg");
             }
             2 | 1 => {
-                let a = self.c.choose(&["title", "foo", "checked", "Title", "fooBar"]).to_string();
+                // (a string argument is the argument as it stands, `_` included)
+                let a = self.c.choose(&["title", "foo", "checked", "Title", "fooBar", "my_prop", "a_b_c"]).to_string();
                 arg_name = a.clone();
                 arr_arg = Some(VmArg::Static(a));
                 self.label("vmodel-static-arg");
@@ -1225,7 +1250,10 @@ impl<'a, 'b> Sem<'a, 'b> {
         let tag = self.tag();
         self.label(format!("host={}", tag.host_label()));
         let mut attrs = self.attrs(&tag, depth);
-        if self.cfg.vmodel && tag == Tag::Html("input".into()) {
+        let typed_host = tag == Tag::Html("input".into())
+            // a `type` attribute on textarea / select does not choose the model directive
+            || ((tag == Tag::Html("textarea".into()) || tag == Tag::Html("select".into())) && self.c.chance(1, 3));
+        if self.cfg.vmodel && typed_host {
             let ty = match self.c.pick(8) {
                 0 => None,
                 1 => Some(Attr::Str { name: "type".into(), value: "checkbox".into() }),
@@ -1239,7 +1267,7 @@ impl<'a, 'b> Sem<'a, 'b> {
             if let Some(t) = ty {
                 let i = self.c.pick(attrs.len() + 1);
                 attrs.insert(i, t);
-                self.label("input-type-attr");
+                self.label(if tag == Tag::Html("input".into()) { "input-type-attr" } else { "type-attr-on-textarea-or-select" });
             }
         }
         let mut children = self.children(depth);
